@@ -41,6 +41,11 @@ SamOK == /\ Ev.res = "nil"
 \* sam.Reader over an input of Ev.n record lines: every line is one record, then io.EOF
 SamReaderOK == /\ Ev.res = "nil" /\ Ev.got = Ev.want /\ Ev.err = "EOF"
                /\ \A k \in DOMAIN Ev.same : Ev.same[k]          \* each record formats to its input line
+\* sam.Writer output = header text, then one line (and a newline) per record; sam.Reader over it gives the
+\* header and every record back (each re-formats to its line), then io.EOF
+SamFileOK == /\ Ev.res = "nil"
+             /\ Ev.out = Ev.hdrtext \o Flatten([i \in 1..Len(Ev.lines) |-> Ev.lines[i] \o <<10>>])
+             /\ Ev.hdrback /\ Ev.err = "EOF" /\ Len(Ev.same) = Ev.n /\ \A k \in DOMAIN Ev.same : Ev.same[k]
 Guard == CASE Ev.ev = "T" -> TRUE
            [] Ev.ev = "cur" -> TRUE          \* the record the following sam events are about (C06 traces)
            [] Ev.ev = "rec" -> RecOK
@@ -50,6 +55,7 @@ Guard == CASE Ev.ev = "T" -> TRUE
            [] Ev.ev = "eof" -> Ev.err = "EOF"
            [] Ev.ev = "sam" -> SamOK
            [] Ev.ev = "samreader" -> SamReaderOK
+           [] Ev.ev = "samfile" -> SamFileOK
            [] OTHER -> FALSE
 Step == /\ l <= Len(Trace) /\ l' = l + 1
         /\ rej' = IF Guard THEN rej ELSE Append(rej, [sc |-> Ev.sc, line |-> l])
